@@ -86,7 +86,7 @@ Proof. exact sb_helper_total. Qed.
 Print Assumptions C17_single_byte_helper_never_out_of_fuel.
 
 From Model Require Import Utf Codecs.
-From Proofs Require Import UtfFacts CodecFacts.
+From Proofs Require Import UtfFacts CodecFacts Utf16Fuel.
 
 (* ---- the Unicode codecs at the character level (Model/Utf.v) ---- *)
 (* "valid UTF-8" of the window theorem is met by every string: the crate's automaton (generated tables) takes the
@@ -129,3 +129,9 @@ Print Assumptions C17_single_byte_closed_form_is_the_helper.
 Example C17_utf16_example :
   utf16_strict_text false [255; 254; 65; 0; 61; 216; 0; 222] = Some [65279; 65; 128512].
 Proof. vm_compute. reflexivity. Qed.
+
+(* the UTF-16 helper model is total as well: the fuel of its loops never runs out, in any mode *)
+Theorem C17_utf16_helper_never_out_of_fuel :
+  forall big input t only_test is_chunk, utf16_helper big input t only_test is_chunk <> HFuel.
+Proof. exact utf16_helper_total. Qed.
+Print Assumptions C17_utf16_helper_never_out_of_fuel.
